@@ -56,6 +56,8 @@ const FOREVER: Duration = Duration::from_secs(10 * 365 * 24 * 3600);
 const PROTOCOL: &str = "/req/1";
 /// Capacity of the transport manager's command channel (as in `TransportManager::new`).
 const MGR_CHANNEL: usize = 256;
+/// Capacity of the event channel towards the user (`DEFAULT_CHANNEL_SIZE`).
+const EVENT_CHANNEL: usize = 4096;
 /// Peer named by the commands that clog the manager's command channel.
 const FILLER: u64 = 99;
 
@@ -439,22 +441,24 @@ impl Inner {
                 format!("/ip4/10.0.0.{i}/tcp/4444/p2p/{}", peer(i)).parse().expect("address");
             assert_eq!(manager_handle.add_known_address(&peer(i), std::iter::once(address)), 1);
         }
+        let mut builder = ConfigBuilder::new(ProtocolName::from(PROTOCOL))
+            .with_max_size(max)
+            .with_timeout(UNIT * timeout)
+            .with_fallback_names((1..=3).map(|n| ProtocolName::from(format!("/req/fb{n}"))).collect());
+        if let Some(n) = inmax {
+            builder = builder.with_max_concurrent_inbound_requests(n);
+        }
+        let (config, handle) = builder.build();
+        // registered like `Litep2p::new` does it
         let (service, tx) = TransportService::new(
             local,
-            ProtocolName::from(PROTOCOL),
-            Vec::new(),
+            config.protocol_name().clone(),
+            config.fallback_names.clone(),
             Arc::new(Default::default()),
             manager_handle,
             FOREVER,
             SubstreamKeepAlive::Yes,
         );
-        let mut builder = ConfigBuilder::new(ProtocolName::from(PROTOCOL))
-            .with_max_size(max)
-            .with_timeout(UNIT * timeout);
-        if let Some(n) = inmax {
-            builder = builder.with_max_concurrent_inbound_requests(n);
-        }
-        let (config, handle) = builder.build();
         let codec = config.codec.clone();
         let counter = Arc::clone(&config.next_request_id);
         SNAP.with(|s| *s.borrow_mut() = Snapshot::default());
@@ -493,7 +497,7 @@ impl Inner {
     }
 
     /// Service calls made and events delivered since the last drain.
-    fn drain(&mut self) -> String {
+    fn drain(&mut self) -> (Vec<String>, Vec<String>) {
         let mut calls = Vec::new();
         if !self.hold_cmds {
             while let Some(Ok(cmd)) = self.cmd_rx.as_mut().map(|rx| rx.try_recv()) {
@@ -542,9 +546,7 @@ impl Inner {
                     format!("failed:{}:{}", self.name(num(&request_id)), error_word(&error)),
             });
         }
-        events.sort();
-        let j = |v: Vec<String>| if v.is_empty() { "-".to_string() } else { v.join(",") };
-        format!("{};{}", j(calls), j(events))
+        (calls, events)
     }
 
     fn snapshot() -> Snapshot {
@@ -996,8 +998,23 @@ impl Inner {
         self.settle().await;
         // two rounds: reading a request to its end and handing it to the user are separate wake-ups
         self.settle().await;
-        // (reading the handle must not be cut short by tokio's cooperative budget)
-        let tail = tokio::task::unconstrained(async { self.drain() }).await;
+        // (reading the handle must not be cut short by tokio's cooperative budget; a protocol that filled the
+        // event channel is blocked in the middle of a handler and goes on once the user has read)
+        let (mut calls, mut events) = (Vec::new(), Vec::new());
+        loop {
+            let (c, e) = tokio::task::unconstrained(async { self.drain() }).await;
+            let full = e.len() >= EVENT_CHANNEL;
+            calls.extend(c);
+            events.extend(e);
+            if !full {
+                break;
+            }
+            self.settle().await;
+            self.settle().await;
+        }
+        events.sort();
+        let j = |v: Vec<String>| if v.is_empty() { "-".to_string() } else { v.join(",") };
+        let tail = format!("{};{}", j(calls), j(events));
         let res = match self.feedback.take() {
             None => res,
             Some(mut rx) => match rx.try_recv() {
